@@ -6,7 +6,7 @@ from specs import optics
 EXPLANATION = ('C02: Pupil/Image x Wavefront -> propagate_dft -> Wavefront.field on symbolic amplitude, OPD, wavelength, focal length, '
                'per-axis input and output pixel scales; concrete array shapes, supports, windows, masks, oversampling.')
 BOUNDS = {
-    'quick': 'plane arrays 1..3 per axis incl. non-square; supports = sampled non-empty subsets; output shape 1..3, prop_shape <= shape, '
+    'quick': 'plane arrays 1..3 per axis incl. non-square; supports = sampled non-empty subsets, whole or split into 2..3 segment masks (several input fields); output shape 1..3, prop_shape <= shape, '
              'oversample 1..2, output mask none / rectangle / sparse; scalar or per-axis scales; both directions; 260 sampled + fixed configs',
     'thorough': 'plane arrays 1..4; output 1..4; oversample 1..3; 2500 sampled + fixed configs',
 }
@@ -66,11 +66,19 @@ def configs(tier, seed):
         out.append({'n': [nr, nc], 'support': [list(x) for x in sup], 'shape': [Sr, Sc], 'prop': [Pr, Pc], 'os': os, 'mask': mask,
                     'scales': rng.choice(['axis', 'axis', 'scalar']), 'dir': rng.choice(['pupil', 'pupil', 'image']),
                     'defaults': False})
+        if len(sup) >= 2 and rng.random() < 0.4:
+            # the same aperture as k per-segment masks (several input fields): the coherent sum is unchanged
+            k = rng.randint(2, min(3, len(sup)))
+            lab = [i % k for i in range(len(sup))]
+            rng.shuffle(lab)
+            out[-1]['segments'] = lab
     # fixed regression set: every window option on one non-square geometry, default shape / prop_shape arguments
     fixed = [
         {'n': [3, 2], 'support': [[0, 0], [1, 1], [2, 0]], 'shape': [2, 3], 'prop': [2, 3], 'os': 2, 'mask': None, 'scales': 'axis', 'dir': 'pupil', 'defaults': True},
         {'n': [2, 3], 'support': [[0, 2], [1, 0]], 'shape': [3, 3], 'prop': [2, 1], 'os': 1, 'mask': None, 'scales': 'axis', 'dir': 'pupil', 'defaults': False},
         {'n': [3, 3], 'support': [[0, 0]], 'shape': [2, 2], 'prop': [2, 2], 'os': 2, 'mask': None, 'scales': 'axis', 'dir': 'pupil', 'defaults': False},
+        {'n': [2, 3], 'support': [[0, 0], [0, 1], [1, 1], [1, 2]], 'segments': [0, 0, 1, 1], 'shape': [2, 3], 'prop': [2, 3], 'os': 2, 'mask': None, 'scales': 'axis', 'dir': 'pupil', 'defaults': False},
+        {'n': [3, 2], 'support': [[0, 0], [1, 0], [1, 1], [2, 1]], 'segments': [0, 1, 0, 1], 'shape': [3, 2], 'prop': [2, 2], 'os': 1, 'mask': None, 'scales': 'scalar', 'dir': 'image', 'defaults': False},
         {'n': [3, 3], 'support': [[1, 1]], 'shape': [2, 2], 'prop': [1, 2], 'os': 1, 'mask': [[0, 1], [0, 0]], 'scales': 'scalar', 'dir': 'image', 'defaults': False},
         {'n': [2, 2], 'support': [[0, 0], [0, 1], [1, 0], [1, 1]], 'shape': [3, 2], 'prop': [3, 2], 'os': 2,
          'mask': [[0, 0, 0, 0], [0, 1, 0, 0], [0, 0, 0, 1], [0, 0, 0, 0], [0, 0, 0, 0], [0, 0, 0, 0]], 'scales': 'axis', 'dir': 'pupil', 'defaults': False},
@@ -90,6 +98,11 @@ def run(W, cfg):
     pmask = rnp.zeros((nr, nc), dtype=int)
     for r, c in cfg['support']:
         pmask[r, c] = 1
+    if cfg.get('segments'):
+        k = max(cfg['segments']) + 1
+        pmask = rnp.zeros((k, nr, nc), dtype=int)
+        for (r, c), g in zip(cfg['support'], cfg['segments']):
+            pmask[g, r, c] = 1
     lam = W.real('lam', pos=True)
     f = W.real('f', pos=True)
     if cfg['scales'] == 'scalar':
